@@ -24,7 +24,7 @@ def repo_root():
 
 
 class Module:
-    def __init__(self, relpath, source):
+    def __init__(self, relpath, source, loader=None):
         self.relpath = relpath
         self.source = source
         with warnings.catch_warnings():
@@ -38,7 +38,9 @@ class Module:
             from .normalize import normalize
             self.tree, self.norm_counts = normalize(self.tree)
             from . import alpha, inline
-            self.inlined, self.not_inlined = inline.apply(self.tree, relpath)
+            self.inlined, self.not_inlined = inline.apply(self.tree, relpath, loader)
+            from .normalize import split_tuple_assignments
+            self.norm_counts['tuple_split'] = split_tuple_assignments(self.tree)
             self.renamed = alpha.apply(self.tree, relpath)
             from . import propagate
             self.propagated = propagate.apply(self.tree, relpath)
@@ -142,10 +144,25 @@ class RepoIndex:
         if relpath not in self._modules:
             src = self.read(relpath)
             try:
-                self._modules[relpath] = Module(relpath, src)
+                self._modules[relpath] = Module(relpath, src, loader=self._raw_tree)
             except SyntaxError as e:
                 raise AnalysisError(f'{relpath} does not parse: {e}')
         return self._modules[relpath]
+
+    def _raw_tree(self, relpath):
+        """parsed + N1-N4 normalised tree of a package file (used to inline helpers imported from another module); None if absent"""
+        if not self.exists(relpath):
+            return None
+        if relpath not in self._raw:
+            from .normalize import normalize
+            try:
+                with warnings.catch_warnings():
+                    warnings.simplefilter('ignore')
+                    t = ast.parse(self.read(relpath))
+                self._raw[relpath] = normalize(t)[0]
+            except SyntaxError:
+                self._raw[relpath] = None
+        return self._raw[relpath]
 
     def all_modules(self):
         for p in self.pyfiles():
